@@ -299,6 +299,14 @@ impl Report {
 		})
 	}
 
+	/// Write the report through an already opened handle (for a shard that changed its filesystem root meanwhile).
+	pub fn write_to(&self, f: &mut std::fs::File) {
+		use std::io::Write;
+		let txt = serde_json::to_string(&self.to_json()).expect("serialise report");
+		f.write_all(txt.as_bytes()).expect("write report");
+		f.sync_all().ok();
+	}
+
 	pub fn write(&self, args: &ShardArgs) {
 		let txt = serde_json::to_string(&self.to_json()).expect("serialise report");
 		if args.out == PathBuf::from("/dev/stdout") {
